@@ -18,6 +18,25 @@ LETTER = {'cleared': 'o', 'failed': 'x', 'passed': '-', 'retired': 'r'}
 TRIALS = ('cleared', 'failed', 'passed', 'retired')
 
 
+# start-list details: in the 'kw' shards every athlete is entered with the optional details a real start list carries - the same
+# explicit order for everybody (the field is free text: 'DQ' / 'DNS' or a position), a non-scorer flag for the second athlete,
+# team and category - the rules do not look at any of them
+KW = {'on': False, 'bibs': []}
+
+
+def jumper_kwargs(bib):
+    if not KW['on']:
+        return {}
+    if bib not in KW['bibs']:
+        KW['bibs'].append(bib)
+    i = KW['bibs'].index(bib)
+    return {'order': 1, 'non_scorer': i == 1, 'team': 'T%d' % (i % 2), 'category': 'OPEN', 'first_name': 'N%d' % i}
+
+
+def add(c, bib):
+    return c.add_jumper(bib=bib, **jumper_kwargs(bib))
+
+
 def _printed(c):
     import contextlib
     import io
@@ -356,7 +375,10 @@ class Monitor(object):
     def describe(self, sh, name, arg):
         def j(v):
             return v if isinstance(v, (dict, int)) and not isinstance(v, bool) else str(v)
-        return {'history': [[m, j(v)] for m, v in sh.log], 'call': [name, j(arg)]}
+        d = {'history': [[m, j(v)] for m, v in sh.log], 'call': [name, j(arg)]}
+        if KW['on']:
+            d['jumper_kwargs'] = True
+        return d
 
     def after(self, comp, name, a, k, pre, exc):
         ctx = self.ctx
@@ -596,7 +618,7 @@ class Monitor(object):
                                  ('failed', sh.bibs[0] if sh.bibs else 'A'), ('add_jumper', 'late-entry'), ('retired', sh.bibs[-1] if sh.bibs else 'A')):
                         try:
                             if m == 'add_jumper':
-                                d.add_jumper(bib=a)
+                                add(d, a)
                             else:
                                 getattr(d, m)(a)
                         except Exception:
@@ -706,7 +728,7 @@ class Monitor(object):
             try:
                 for kind, v in segs:
                     if kind == 'add_jumper':
-                        d.add_jumper(bib=v)
+                        add(d, v)
                     elif kind == 'set_bar_height':
                         d.set_bar_height(v)
                     else:
@@ -807,7 +829,7 @@ class Explorer(object):
     def start(self, nj):
         c = self.H()
         for b in self.bibs[:nj]:
-            c.add_jumper(bib=b)
+            add(c, b)
         return c
 
     def calls(self, c, nj, max_reg, max_jo, legal_only=False):
@@ -863,7 +885,7 @@ class Explorer(object):
     def apply(self, c, m, a):
         try:
             if m == 'add_jumper':
-                c.add_jumper(bib=a)
+                add(c, a)
             else:
                 getattr(c, m)(a)
             self.transitions += 1
@@ -1116,6 +1138,13 @@ class Explorer(object):
             for b in list(sh.jo_participants or []):
                 if not must_refuse(sh, {j.bib: j.place for j in c.jumpers}, 'retired', b):
                     self.apply(c, 'retired', b)
+        if probe_outsiders and c.state == 'jumpoff':
+            # still a jump-off after everybody the rule book knows of has retired (or after a pass left the rule book without an
+            # opinion): whoever has retired stays out whatever else is unclear - a new bar, then everybody who retired tries to jump
+            self.apply(c, 'set_bar_height', c.heights[-1] + D('0.01'))
+            for b in list(sh.bibs):
+                if 'r' in sh.seq(b):
+                    self.apply(c, rnd.choice(['cleared', 'failed']), b)
         self.states += 1
         return c
 
@@ -1125,7 +1154,7 @@ class Explorer(object):
         c = self.H()
         sh = self.mon.shadow(c)
         for b in self.bibs[:nj]:
-            c.add_jumper(bib=b)
+            add(c, b)
         h = D('1.00')
         strings = ['o', 'o', 'xo', 'xxo', 'xxx', 'x-', 'xx-', '-', 'r', 'xr', 'xxr', 'x', 'xx', '']
         for step in range(40):
